@@ -307,6 +307,12 @@ func c08run(w *report.W) {
 		{"kk: &k kname\nzz: &d {kname: m, mm: x}\nsteps: []\nmeta: {<<: *d, *k : own}\n", "mm=x,kname=own"},
 		{"zz: &d {16: m16, true: mt, mm: x}\nsteps: []\nenv: {<<: *d, 0x10: own16, True: ownT}\n", "mm=x,16=own16,true=ownT"},
 		{"zz: &d {16: m16, mm: x}\nsteps:\n  - command: c\n    agents: {<<: *d, 0x10: own16}\n", "mm=x,16=own16"},
+		// alias keys whose anchored scalar is not spelled canonically; inline mappings as merge values
+		{"kk: &k 0x10\nzz: &d {16: m16, mm: x}\nsteps: []\nmeta: {<<: *d, *k : own}\n", "mm=x,16=own"},
+		{"kk: &k True\nsteps: []\nmeta: {z: 1, *k : own, true: again}\n", "z=1,true=again"},
+		{"steps: []\nmeta: {a: 1, <<: {m: 2, n: 3}, z: 4}\n", "a=1,m=2,n=3,z=4"},
+		{"steps: []\nenv: {A: a, <<: {MIKE: m, ALPHA: x}, Z: z}\n", "A=a,MIKE=m,ALPHA=x,Z=z"},
+		{"steps:\n  - command: c\n    agents: {<<: [{q: 1}, {q: 2, r: 3}], s: 4}\n", "q=1,r=3,s=4"},
 		// merges through merges: precedence and position are transitive (an own key beats every level; the first source of a list wins at every level)
 		{"zz: &a {x: ax, p: ap}\nyy: &b {<<: *a, q: bq}\nsteps: []\nmeta: {x: own, <<: *b, r: 1}\n", "x=own,p=ap,q=bq,r=1"},
 		{"zz: &a {x: ax, p: ap}\nyy: &b {<<: *a, q: bq}\nsteps: []\nmeta: {<<: *b, x: own}\n", "p=ap,q=bq,x=own"},
